@@ -15,7 +15,7 @@ import (
 
 // C02 — boolean predicates keep exactly the nodes for which the predicate is true.
 
-const ruleC02 = "rapid: document biased to many candidates sharing ancestors/siblings (2 element names, fan<=4) x context x path of 1-3 steps over all axes whose steps carry 1-2 boolean predicates of nesting depth<=2 (path existence, =/!= literal, relational number, count(), contains()/starts-with(), local-name(), not(), and/or, true()/false()), or (path)[p1][p2]. Oracles: (1) set(Select) = reference evaluator; (2) engine-only: the selected set equals the candidates of the unfiltered last step for which a freshly compiled boolean(P) is true at that candidate alone. Non-trivial: >= 2 candidates reach the last predicate and the verdicts are mixed; distinct by (document, context, expression)."
+const ruleC02 = "rapid: document biased to many candidates sharing ancestors/siblings (2 element names, fan<=4) x context x path of 1-3 steps over all axes whose steps carry 1-2 boolean predicates of nesting depth<=2 (path existence, =/!= literal, relational number, count(), contains()/starts-with(), local-name(), not(), and/or, true()/false()), or (path)[p1][p2]. Oracles: (1) set(Select) = reference evaluator; (2) engine-only: the selected set equals the candidates of the unfiltered last step for which a freshly compiled boolean(P) is true at that candidate alone. (3) engine-only, on documents of <= 45 nodes: the selected set equals the step-by-step evaluation in which every step is run alone from every node that reached it and every predicate alone at every candidate, each with a fresh compile. Non-trivial: >= 2 candidates reach the last predicate and the verdicts are mixed; distinct by (document, context, expression)."
 
 var uC02 = harness.NewUnit("C02", "rapid-predicates", ruleC02)
 
@@ -130,6 +130,73 @@ func oracleC02(l *harness.Live) (c02Info, *harness.Failure) {
 				}
 			}
 		}
+	}
+	// third oracle, engine-only and step by step: every step is evaluated alone from every
+	// node that reached it, every predicate alone at every candidate, always with a fresh
+	// compile - the verdict on a candidate of ANY step (not only the last) can then not
+	// depend on what was evaluated before it. Only on small documents (cost).
+	if p, ok := l.AST.(*xast.Path); ok && p.Start == nil && len(l.Doc.Nodes) <= 45 {
+		cur := []int{l.Ctx.ID}
+		if p.Abs {
+			cur = []int{0}
+		}
+		evalSet := func(e xast.Expr, from int) ([]int, *harness.Failure) {
+			x := *l
+			x.AST, x.Expr, x.Ctx = e, xast.Render(e), l.Doc.Nodes[from]
+			ids, f := engineSelect(&x)
+			return harness.SetOf(ids), f
+		}
+		for _, st := range p.Steps {
+			var bare xast.Expr
+			var preds []xast.Expr
+			switch x := st.(type) {
+			case xast.DSlash:
+				bare = &xast.Path{Steps: []interface{}{&xast.Step{Axis: "descendant-or-self", Test: xast.NodeTest{Kind: "node"}}}}
+			case *xast.Step:
+				b := *x
+				b.Preds = nil
+				bare = &xast.Path{Steps: []interface{}{&b}}
+				preds = x.Preds
+			default:
+				return info, nil
+			}
+			seen := map[int]bool{}
+			var next []int
+			for _, from := range cur {
+				cands, f := evalSet(bare, from)
+				if f != nil {
+					return info, f
+				}
+				for _, c := range cands {
+					if seen[c] {
+						continue
+					}
+					ok := true
+					for _, pr := range preds {
+						pe := &xast.Call{Name: "boolean", Args: []xast.Expr{pr}}
+						x := *l
+						x.AST, x.Expr, x.Ctx = pe, xast.Render(pe), l.Doc.Nodes[c]
+						v, f := engineEval(&x)
+						if f != nil {
+							return info, f
+						}
+						if !v.B {
+							ok = false
+							break
+						}
+					}
+					if ok {
+						seen[c] = true
+						next = append(next, c)
+					}
+				}
+			}
+			cur = harness.SetOf(next)
+		}
+		if !harness.EqualInts(cur, got) && !(len(cur) == 0 && len(got) == 0) {
+			return info, harness.Failf(describe(l.Doc, cur), describe(l.Doc, got), "the path differs from its step-by-step evaluation (every step and every predicate evaluated alone with fresh compiles)")
+		}
+		info.labels = append(info.labels, "oracle:stepwise")
 	}
 	return info, nil
 }
